@@ -358,6 +358,41 @@ func unboundMemberOps(g *Rng, kps []*KeyPair, trees []any, ctx, nonce *big.Int, 
 		o := listOp(k2, t2, ctx, nonce, issig, nil, "unbound-member-"+variant, "reject")
 		o["fkey"] = fkey
 		ops = append(ops, o)
+		// the crafted member alone, with the challenge of a list that contributes nothing
+		if variant != "nonunit-A-first" {
+			ta := cloneTree(tm).(T)
+			ta["c"] = I(gabi.VerifCreateChallenge(ctx, nonce, nil, issig))
+			oa := listOp([]*KeyPair{okp}, []any{any(ta)}, ctx, nonce, issig, nil, "unbound-member-alone-"+variant, "reject")
+			oa["fkey"] = fkey
+			ops = append(ops, oa)
+		}
+	}
+	// an issuance commitment that is no group element (0, N): nothing can be reconstructed from
+	// it, whatever its responses; the genuine members are made for a challenge that counts it in
+	// as (U, 0), its secret-key response is copied from a genuine member afterwards
+	ops = append(ops, forgedNonunitUOps(g, okp, ctx, nonce, issig, fkey)...)
+	return ops
+}
+
+func forgedNonunitUOps(g *Rng, kp *KeyPair, ctx, nonce *big.Int, issig bool, fkey string) []Op {
+	pk := kp.pk
+	var ops []Op
+	for _, u := range []*big.Int{bi(0), new(big.Int).Set(pk.N)} {
+		cred := issueCred(kp, randSecret(g), []*big.Int{g.bits(60), g.bits(60)})
+		b, err := cred.CreateDisclosureProofBuilder([]int{1}, nil, false)
+		if err != nil {
+			panic(err)
+		}
+		contribs, err := b.Commit(map[string]*big.Int{"secretkey": g.bits(int(pk.Params.LmCommit) - 2)})
+		if err != nil {
+			panic(err)
+		}
+		c := gabi.VerifCreateChallenge(ctx, nonce, append(append([]*big.Int{}, contribs...), u, bi(0)), issig)
+		pd := b.CreateProof(c).(*gabi.ProofD)
+		forged := T{"U": I(u), "c": I(c), "v_prime_response": I(g.bits(300)), "s_response": I(pd.AResponses[0])}
+		o := listOp([]*KeyPair{kp, kp}, []any{any(proofDTree(pd)), any(forged)}, ctx, nonce, issig, nil, "forged-nonunit-U", "reject")
+		o["fkey"] = fkey
+		ops = append(ops, o)
 	}
 	return ops
 }
